@@ -62,25 +62,40 @@ def vector_for(fam, mask, rot, order_mode):
     return T.spell(fam, asg, order), asg
 
 
-def judge(fam, vec):
-    cls = observe.cls_of(fam)
-    try:
-        obj = cls(vec)
-        cv = obj.clean_vector()
-        rh = obj.rh_vector()
-    except Exception as e:  # noqa
-        return "raised %s: %s" % (type(e).__name__, e), None
-    why = check_emitted(fam, cv, "clean_vector()")
-    if why:
-        return why, cv
-    parts = rh.split("/", 1)
-    if len(parts) != 2 or parts[1] != cv:
-        return "rh_vector() %r is not '<score>/' + clean_vector() %r" % (rh, cv), cv
-    try:
-        float(parts[0])
-    except ValueError:
-        return "rh_vector() %r does not start with a score" % (rh,), cv
-    return None, cv
+def judge(fam, vec, entries=True):
+    """The object built by the constructor and - for strings the model accepts - the objects
+    obtained through every other entry point (observe.construct) emit valid strings."""
+    cv0 = None
+    for entry in ["direct"] + (list(observe.ENTRIES) if entries else []):
+        observe.ENTRY = entry
+        try:
+            try:
+                obj = observe.construct(fam, vec)
+                cv = obj.clean_vector()
+                rh = obj.rh_vector()
+            except Exception as e:  # noqa
+                return "raised %s: %s%s" % (type(e).__name__, e, observe.via()), cv0
+            via = observe.via()
+        finally:
+            observe.ENTRY = "direct"
+        if cv0 is None:
+            cv0 = cv
+        why = check_emitted(fam, cv, "clean_vector()")
+        if why:
+            return why + via, cv0
+        if type(cv) is not type("") or type(rh) is not type(""):
+            # what is emitted is text of the library's making, not an object of the caller's
+            if str(cv) != cv or str(rh) != rh or format(cv) != cv or format(rh) != rh:
+                return "an emitted string is an instance of %s / %s whose str()/format() is not its text%s" % (
+                    type(cv).__name__, type(rh).__name__, via), cv0
+        parts = rh.split("/", 1)
+        if len(parts) != 2 or parts[1] != cv or str(parts[1]) != str(cv0):
+            return "rh_vector() %r is not '<score>/' + clean_vector() %r%s" % (rh, cv, via), cv0
+        try:
+            float(parts[0])
+        except ValueError:
+            return "rh_vector() %r does not start with a score%s" % (rh, via), cv0
+    return None, cv0
 
 
 def _task(t):
@@ -123,7 +138,7 @@ def _lenient_task(chunk):
         acc["n"] += 1
         acc["calls"] += 3
         acc["cmp"] += 2
-        why, cv = judge(fam, s)
+        why, cv = judge(fam, s, entries=T.classify(fam, s) == "ACCEPT")
         if why:
             sweep.bad(acc, {"what": "%s(%r) is accepted and %s" % (T.CLASSNAME[fam], s, why), "kind": "emitted",
                             "input": s, "family": fam, "signature": {"kind": "emitted", "family": fam, "lenient": True}})
@@ -150,7 +165,10 @@ def judge_builder(fam, allm, nc, k):
     for a, n, kk, p in builder_cases(fam):
         if (a, n, kk) == (allm, nc, k):
             pick = p
-    run = dialogue.run_builder(fam, allm, nc, {}, pick)
+    from . import c16
+    # every other run passes the version in its other numeric spelling (2.0, 3, 4)
+    va = c16.ALT_VERSION.get(fam) if (k + int(allm)) % 2 else None
+    run = dialogue.run_builder(fam, allm, nc, {}, pick, version_arg=va)
     if "result" not in run:
         # whether the builder accepts these answers is C16's business, not this property's
         return None, None
